@@ -5,15 +5,57 @@
        run means "no musl" - no musllinux tags, never an exception (repaired in /repo, 020ba8a; it used to escape);
    (3) functools.lru_cache: _get_glibc_version() is one cell, _get_musl_version(executable) is keyed by the path (a None
        answer - including the one of a loader that cannot be run - is memoised like any other).
+   (4) the version parsers as the code has them now: int() refuses more than sys.get_int_max_str_digits() digit characters
+       (default 4300; the parameter le_intmax) and both parsers then treat the string as unreadable (71d4b23); the musl regex
+       uses backslash-d and int(), which accept every Unicode decimal digit ([0-9] in the glibc regex is ASCII only).
+       PlatModel.parse_glibc_version / parse_musl_version (no digit limit, ASCII digits) are the readings of these inside the
+       limit and on ASCII text (PlatLoaderProofs: parse_glibc_l_spec, parse_musl_l_ascii).
    Definitions only (extracted); theorems in PlatLoaderProofs.v. *)
 From Coq Require Import List Arith NArith Bool.
 Import ListNotations.
 Require Import Elf ElfFile ElfDisk VParse VDec Tags TagsModel PlatLit PlatModel.
+Require WordTable.
 Open Scope N_scope.
 
 (* ---------------------------------------------------------------- running the loader *)
 (* the system as subprocess.run sees it: which loader paths exist (le_all: every NUL-free path does), and what a loader prints *)
-Record loader_env := { le_all : bool; le_existing : list bytes; le_stderr : str }.
+Record loader_env := { le_all : bool; le_existing : list bytes; le_stderr : str;
+                        le_intmax : nat }.           (* sys.get_int_max_str_digits(): 4300 unless configured *)
+Definition default_intmax : nat := 4300%nat.
+
+(* ---------------------------------------------------------------- the version parsers, exactly *)
+(* the value of a decimal digit of any script (Gen/WordTable.digit_ranges: (lo, hi, value of lo)) as the ASCII digit int() reads *)
+Definition to_ascii_digit (c : char) : char :=
+  if c <? 128 then c
+  else match find (fun p => (fst (fst p) <=? c) && (c <=? snd (fst p))) WordTable.digit_ranges with
+       | Some p => 48 + snd p + (c - fst (fst p)) | None => c end.
+Definition within (lim : nat) (d : str) : bool := (length d <=? lim)%nat.
+(* re.match(<digits>.<digits>) with the digit class [isd]; int() of both groups, None when int() raises ValueError *)
+Definition scan_version_l (isd : char -> bool) (lim : nat) (s : str) : option (nat * nat) :=
+  let '(d1, r1) := span isd s in
+  match d1, r1 with
+  | _ :: _, c :: r2 =>
+      if c =? 46 then
+        let '(d2, _) := span isd r2 in
+        match d2 with
+        | _ :: _ => if within lim d1 && within lim d2 then Some (to_nat_dec (map to_ascii_digit d1), to_nat_dec (map to_ascii_digit d2)) else None
+        | [] => None
+        end
+      else None
+  | _, _ => None
+  end.
+Definition parse_glibc_version_l (lim : nat) (s : str) : option (nat * nat) := scan_version_l is_digit lim s.
+Definition parse_musl_version_l (lim : nat) (output : str) : option (nat * nat) :=
+  match filter nonempty (map strip (splitlines output)) with
+  | l0 :: l1 :: _ =>
+      if negb (streq (firstn 4 l0) s_musl) then None else
+      if negb (starts_with s_Version_ l1) then None else scan_version_l is_ud lim (skipn 8 l1)
+  | _ => None
+  end.
+Definition get_glibc_version_l (lim : nat) (c : confstr_r) (t : ctypes_r) : option (nat * nat) :=
+  match glibc_version_string c t with None => None | Some s => parse_glibc_version_l lim s end.
+Definition manylinux_tags_l (lim : nat) (e : menv) (archs : list str) : list str :=
+  map render_mtag (many_struct (have_compatible_abi (m_exe e) archs) archs (get_glibc_version_l lim (m_confstr e) (m_ctypes e)) (m_policy e)).
 Inductive loader_r := LRan (stderr : str) | LValueError | LFileNotFound.          (* what subprocess.run([ld], ...) does *)
 Definition has_nul (b : bytes) : bool := existsb (N.eqb 0) b.
 Definition run_loader (le : loader_env) (ld : bytes) : loader_r :=
@@ -35,7 +77,7 @@ Definition musl_loader_disk (lim : file_limits) (exe : option bytes) : option by
 Definition get_musl_version_x (lim : file_limits) (exe : option bytes) (le : loader_env) : option (nat * nat) :=
   match musl_loader_disk lim exe with
   | None => None
-  | Some ld => match run_loader le ld with LRan err => parse_musl_version err | LValueError | LFileNotFound => None end
+  | Some ld => match run_loader le ld with LRan err => parse_musl_version_l (le_intmax le) err | LValueError | LFileNotFound => None end
   end.
 Definition musl_render (v : option (nat * nat)) (archs : list str) : list str := map (render3 s_musllinux_) (musl_struct v archs).
 (* _musllinux.platform_tags(archs) *)
@@ -50,7 +92,7 @@ Definition linux_platforms_x (is_32bit : bool) (get_platform : str) (e : menv) (
                                  else if streq linux s_linux_aarch64 then s_linux_armv8l else linux) else linux in
   let arch := snd (split1 95 linux) in
   let archs := if streq arch s_armv8l then [s_armv8l; s_armv7l] else [arch] in
-  manylinux_tags e archs ++ musllinux_tags_x lim (m_exe e) le archs ++ map (fun a => s_linux_ ++ a) archs.
+  manylinux_tags_l (le_intmax le) e archs ++ musllinux_tags_x lim (m_exe e) le archs ++ map (fun a => s_linux_ ++ a) archs.
 Definition platform_tags_x (p : penv) (lim : file_limits) (le : loader_env) : option (list str) :=
   if streq (pe_system p) s_Darwin then mac_default (pe_mac_ver p) (pe_mac_cpu p) (pe_mac_sub p)
   else if streq (pe_system p) s_iOS then ios_default (pe_ios_release p) (pe_multiarch p)
@@ -61,8 +103,19 @@ Definition platform_tags_x (p : penv) (lim : file_limits) (le : loader_env) : op
 Definition musl_cache := list (list N * option (nat * nat)).             (* executable path -> memoised answer *)
 Fixpoint cache_get (k : list N) (c : musl_cache) : option (option (nat * nat)) :=
   match c with [] => None | (k', v) :: t => if streq k' k then Some v else cache_get k t end.
+(* functools.lru_cache(maxsize=128): a hit moves the entry to the most-recently-used end, a miss stores the answer there and, when
+   the memo is full, evicts the least recently used entry.  The list is ordered most recent first. *)
+Definition cache_cap : nat := 128%nat.
+Fixpoint cache_remove (k : list N) (c : musl_cache) : musl_cache :=
+  match c with [] => [] | (k', v) :: t => if streq k' k then t else (k', v) :: cache_remove k t end.
 (* a call _get_musl_version(k) whose uncached answer would be [now] *)
 Definition cached_musl (c : musl_cache) (k : list N) (now : option (nat * nat)) : musl_cache * option (nat * nat) :=
+  match cache_get k c with
+  | Some v => ((k, v) :: cache_remove k c, v)
+  | None => (firstn cache_cap ((k, now) :: c), now)
+  end.
+(* the memo without a size bound (the reading of the above while at most 128 different paths are in play) *)
+Definition cached_unb (c : musl_cache) (k : list N) (now : option (nat * nat)) : musl_cache * option (nat * nat) :=
   match cache_get k c with
   | Some v => (c, v)
   | None => ((k, now) :: c, now)
@@ -75,15 +128,20 @@ Record pstep := { st_key : list N; st_menv : menv; st_lim : file_limits; st_le :
 Definition step_probes (archs : list str) (s : pstate) (st : pstep) : pstate * (list str * list str) :=
   let e := st_menv st in
   let abi_ok := have_compatible_abi (m_exe e) archs in
-  let '(g', gv) := if abi_ok then cached_probe (ps_glibc s) (get_glibc_version (m_confstr e) (m_ctypes e)) else (ps_glibc s, None) in
+  let '(g', gv) := if abi_ok then cached_probe (ps_glibc s) (get_glibc_version_l (le_intmax (st_le st)) (m_confstr e) (m_ctypes e)) else (ps_glibc s, None) in
   let many := map render_mtag (many_struct abi_ok archs gv (m_policy e)) in
   let '(m', mv) := cached_musl (ps_musl s) (st_key st) (get_musl_version_x (st_lim st) (m_exe e) (st_le st)) in
   ({| ps_glibc := g'; ps_musl := m' |}, (many, musl_render mv archs)).
 Fixpoint run_steps (archs : list str) (s : pstate) (sts : list pstep) : list (list str * list str) :=
   match sts with [] => [] | st :: t => let '(s', o) := step_probes archs s st in o :: run_steps archs s' t end.
-(* the keyed cache alone: a sequence of calls (key, what an uncached call would answer now) *)
+(* the keyed memo alone: a sequence of calls (key, what an uncached call would answer now) *)
+Fixpoint run_lru (c : musl_cache) (l : list (list N * option (nat * nat))) : list (option (nat * nat)) :=
+  match l with
+  | [] => []
+  | (k, now) :: t => let '(c', r) := cached_musl c k now in r :: run_lru c' t
+  end.
 Fixpoint run_keyed (c : musl_cache) (l : list (list N * option (nat * nat))) : list (option (nat * nat)) :=
   match l with
   | [] => []
-  | (k, now) :: t => let '(c', r) := cached_musl c k now in r :: run_keyed c' t
+  | (k, now) :: t => let '(c', r) := cached_unb c k now in r :: run_keyed c' t
   end.
